@@ -1,7 +1,7 @@
 """properties: which rules decide which property, and how a run is reported as evidence."""
 import json, os
 
-CORPUS_FLOOR = {'quick': 150, 'thorough': 600}
+CORPUS_FLOOR = {'quick': 200, 'thorough': 1200}
 
 TRUSTED = [
     "rustc nightly front end, type checker, trait solver, layout computation and MIR construction at -Zmir-opt-level=0",
